@@ -88,11 +88,13 @@ ASSUMPTIONS = []
 
 def cases(tier):
     cs = []
-    for n in ((2, 3) if tier == "quick" else (2, 3, 4)):
+    # bit-precise float64 (incl. +-inf, signed zeros) at n=2; order-only reasoning over the reals for larger n
+    for k in (1, 2):
+        cs.append(dict(name=f"select.fp.n2.k{k}", fn=h_select, params=dict(n=2, k_elites=k), profile="fp", budget_s=1500, weight=4))
+    for n in ((3,) if tier == "quick" else (3, 4)):
         for k in (1, 2):
-            if k > n:
-                continue
-            cs.append(dict(name=f"select.n{n}.k{k}", fn=h_select, params=dict(n=n, k_elites=k), profile="fp", budget_s=1500, weight=n * n))
+            cs.append(dict(name=f"select.real.n{n}.k{k}", fn=h_select, params=dict(n=n, k_elites=k), profile="real", budget_s=3000,
+                           weight=n * n, argsort_mode="fork-ties" if (n == 3 and k == 1) else "fork"))
     cs.append(dict(name="de.n4", fn=h_de, params=dict(n=4), profile="fp", budget_s=1500, weight=20))
     cs.append(dict(name="de.dither.n4", fn=h_de, params=dict(n=4, dither=True), profile="fp", budget_s=1500, weight=20))
     return cs
